@@ -28,6 +28,7 @@ class Baton(object):
         self.line_counts = [0] * nthreads
         self.errors = [None] * nthreads
         self.aborted = False
+        self.choice_log = []     # (number of runnable threads, index taken) at every decision, for schedule enumeration
 
     def _choose(self):
         runnable = [i for i in range(self.n) if not self.done[i]]
@@ -38,6 +39,7 @@ class Baton(object):
             self.pi += 1
         else:
             k = 0
+        self.choice_log.append((len(runnable), k))
         return runnable[k]
 
     def yield_point(self, tid, label, *args):
